@@ -340,7 +340,7 @@ def table_integer(value: int) -> bytes:
         return b'i' + long_uint(value)
     elif -9223372036854775808 <= value <= 9223372036854775807:
         return b'l' + long_long_int(value)
-    raise TypeError('Unsupported numeric value: {}'.format(value))
+    raise _unsupported_numeric_value(value)
 
 
 def _deprecated_table_integer(value: int) -> bytes:
@@ -360,7 +360,15 @@ def _deprecated_table_integer(value: int) -> bytes:
         return b'I' + long_int(value)
     elif -9223372036854775808 <= value <= 9223372036854775807:
         return b'l' + long_long_int(value)
-    raise TypeError('Unsupported numeric value: {}'.format(value))
+    raise _unsupported_numeric_value(value)
+
+
+def _unsupported_numeric_value(value: int) -> TypeError:
+    """Return the error for an integer that no table type can hold"""
+    try:
+        return TypeError('Unsupported numeric value: {}'.format(value))
+    except ValueError:  # More digits than an int may be converted to
+        return TypeError('Unsupported numeric value: {:#x}'.format(value))
 
 
 def _string(encoder: struct.Struct, value: str) -> bytes:
